@@ -48,7 +48,8 @@ ASSUMPTIONS = [
     "Int verdicts are relative to the range -4..4 for free symbols",
 ]
 RULE = ("histories: (a) the Coq refutation witness and the witnesses of the clauses repaired by fixes C17 a-d (regression), (b) user-legal histories over a 13-call alphabet: all up to length 2 + a sample of length 3 (thorough: all up to length 4), "
-        "(c) random histories with one-level push/pop, no reset, value queries last, (d) random histories stressing one repaired clause each "
+        "(c) random histories with one-level push/pop, no reset, value queries last, (d) random histories stressing one repaired clause each; a quarter of (c),(d) draws from a 40-symbol pool of mixed sorts with formulas of 7..33 distinct free symbols (sizes 7,8,9,15,16,17,31,32,33 explicitly), "
+        "(d') poplevels: symbols declared at different levels, one pop(n) with n in 2..4, reuse of symbols of the lowest/middle/highest popped level in small and large formulas, with/without a small formula first, optionally after push / reset_assertions; widemodel: 15..33 symbols at one level then get_model / get_value of wide terms, "
         "(value queries anywhere / get_model at any depth / push,pop with n in 0..3 / reset_assertions / value query on an unasserted symbol), (e) factory one-shot shortcuts; "
         "distinct = distinct (history, formulas) inputs")
 
@@ -56,6 +57,11 @@ RULE = ("histories: (a) the Coq refutation witness and the witnesses of the clau
 # symbols, formulas (harness AST), evaluator
 # ------------------------------------------------------------------------------------------
 POOL = [("b0", "Bool"), ("b1", "Bool"), ("b2", "Bool"), ("v0", "BV"), ("v1", "BV"), ("i0", "Int"), ("i1", "Int")]
+# the large pool of the "wide" families (formulas with 7..33 distinct free symbols, mixed sorts)
+WIDE_POOL = ["p%d" % k for k in range(28)] + ["u%d" % k for k in range(6)] + ["k%d" % k for k in range(6)]
+POOL += [(n, {"p": "Bool", "u": "BV", "k": "Int"}[n[0]]) for n in WIDE_POOL]
+# sizes around the usual thresholds of "bulk" shortcuts (8 / 16 / 32)
+WIDE_SIZES = [7, 8, 9, 15, 16, 17, 31, 32, 33]
 SYM_ID = {n: k for k, (n, _) in enumerate(POOL)}
 SYM_SORT = dict(POOL)
 
@@ -237,6 +243,52 @@ def gen_formula(rnd, pool):
     return ("var", [n for n in pool if SYM_SORT[n] == "Bool"][0]) if any(SYM_SORT[n] == "Bool" for n in pool) else f
 
 
+def first_value(sort):
+    return domain(sort)[0]
+
+
+def wide_literal(rnd, n, anchor):
+    """A literal over symbol n; anchor=True: one that holds under the first assignment of the
+    enumeration order (false / #b000 / -4) shared by the reference solver and the harness."""
+    so = SYM_SORT[n]
+    v = ("var", n)
+    if so == "Bool":
+        return ("not", v) if (anchor or rnd.random() < 0.5) else v
+    if so == "BV":
+        c = rnd.randrange(1, (1 << BVW) - 1)
+        return ("bvule", v, ("bvconst", c)) if (anchor or rnd.random() < 0.5) else ("bvult", ("bvconst", c), v)
+    c = rnd.randint(-3, 3)
+    return ("le", v, ("iconst", c)) if (anchor or rnd.random() < 0.5) else ("lt", ("iconst", c), v)
+
+
+def _tree(op, items):
+    while len(items) > 1:
+        items = [(op, items[k], items[k + 1]) if k + 1 < len(items) else items[k] for k in range(0, len(items), 2)]
+    return items[0]
+
+
+def gen_wide(rnd, names):
+    """A formula that mentions exactly the given symbols and holds under the first assignment:
+    one clause, or a conjunction of two or three clauses, each with an anchor literal."""
+    names = list(names)
+    rnd.shuffle(names)
+    nparts = 1 if len(names) < 4 else rnd.choice([1, 1, 2, 3])
+    parts = [names[k::nparts] for k in range(nparts)]
+    clauses = []
+    for part in parts:
+        lits = [wide_literal(rnd, n, k == 0) for k, n in enumerate(part)]
+        rnd.shuffle(lits)
+        clauses.append(_tree("or", lits))
+    return _tree("and", clauses)
+
+
+def search_space(names):
+    t = 1
+    for n in names:
+        t *= len(domain(SYM_SORT[n]))
+    return t
+
+
 def assignments(names):
     names = sorted(names)
     for vals in itertools.product(*[domain(SYM_SORT[n]) for n in names]):
@@ -345,6 +397,19 @@ class Ideal(object):
                 return False
         return True
 
+    def cheap(self, extra=()):
+        """Can a check over the live assertions (+ extra formulas) be decided quickly by brute
+        force?  Yes if the search space is small, or if the first assignment of the enumeration
+        order is a model (then the reference solver and the harness both stop at once)."""
+        fs = self.live() + list(extra)
+        names = set()
+        for f in fs:
+            syms(f, names)
+        if search_space(names) <= 4096:
+            return True
+        env = {n: first_value(SYM_SORT[n]) for n in names}
+        return all(ev(f, env) for f in fs)
+
     def queryable(self, term):
         """The theorems' side condition on value queries: only symbols of live assertions."""
         live = self.live_syms()
@@ -399,14 +464,57 @@ class Ideal(object):
 # ------------------------------------------------------------------------------------------
 # history generators
 # ------------------------------------------------------------------------------------------
-def random_history(rnd, cls):
-    """cls: 'fragment' | 'values' | 'modeldepth' | 'multi' | 'reset' | 'mixed'."""
+def pick_size(rnd):
+    return rnd.choice(WIDE_SIZES) if rnd.random() < 0.6 else rnd.randint(9, 20)
+
+
+def wide_names(rnd, size, must=(), prefer=()):
+    """`size` distinct symbols of the large pool: those in `must`, then from `prefer`, then any."""
+    out = list(dict.fromkeys(must))
+    for src in (list(prefer), WIDE_POOL):
+        cand = [n for n in src if n not in out]
+        rnd.shuffle(cand)
+        out += cand[:max(0, size - len(out))]
+    return out[:max(size, len(set(must)))]
+
+
+def admissible(h):
+    """User-legal, and every check / value query is decidable quickly by brute force."""
+    ideal = Ideal()
+    for c in h:
+        if not ideal.legal(c):
+            return False
+        if c[0] == "solve" and not ideal.cheap():
+            return False
+        if c[0] in ("is_sat", "is_unsat") and not ideal.cheap([c[1]]):
+            return False
+        if c[0] == "is_valid" and not ideal.cheap([("not", c[1])]):
+            return False
+        ideal.step(c)
+    return True
+
+
+def random_history(rnd, cls, wide=False):
+    """cls: 'fragment' | 'values' | 'modeldepth' | 'multi' | 'reset' | 'mixed' | 'valuefree'.
+    wide: symbols from the large pool, formulas with up to 33 distinct free symbols."""
     nb = rnd.choice([1, 2, 2, 3])
     pool = rnd.sample(["b0", "b1", "b2"], nb)
     extra = rnd.choice([[], ["v0"], ["i0"], ["v0"], ["i0"], ["v0", "v1"], ["i0", "i1"], ["v0", "i0"]])
     pool = pool + extra
     if len(pool) > 4:
         pool = pool[-4:]
+    if wide:
+        pool = rnd.sample(WIDE_POOL, rnd.randint(12, 20))
+
+    def formula():
+        if not wide:
+            return gen_formula(rnd, pool)
+        r = rnd.random()
+        if r < 0.5:
+            return gen_wide(rnd, wide_names(rnd, pick_size(rnd), prefer=pool))
+        if r < 0.8:
+            return gen_wide(rnd, rnd.sample(pool, rnd.choice([1, 1, 2, 3])))
+        return gen_formula(rnd, rnd.sample(pool, 3))
     n = rnd.choice([2, 3, 4, 5, 6, 8, 10, 14])
     ideal = Ideal()
     h = []
@@ -423,7 +531,7 @@ def random_history(rnd, cls):
         tries += 1
         k = rnd.choice(kinds)
         if k in ("add", "is_sat", "is_valid", "is_unsat"):
-            call = (k, gen_formula(rnd, pool))
+            call = (k, formula())
         elif k in ("push", "pop"):
             call = (k, rnd.choice(ns))
         elif k == "get_value":
@@ -433,12 +541,17 @@ def random_history(rnd, cls):
             sub = rnd.sample(live, min(len(live), rnd.choice([1, 1, 2])))
             sort = rnd.choice(["Bool", SYM_SORT[sub[0]]])
             t = ("var", sub[0]) if rnd.random() < 0.5 else gen_term(rnd, SYM_SORT[sub[0]] if sort != "Bool" else "Bool", sub, 2)
+            if wide and rnd.random() < 0.5:
+                t = gen_wide(rnd, rnd.sample(live, min(len(live), pick_size(rnd))))
             call = (k, t)
             if not ideal.queryable(t):
                 continue
         else:
             call = (k,)
         if not ideal.legal(call):
+            continue
+        if (k == "solve" and not ideal.cheap()) or (k in ("is_sat", "is_unsat") and not ideal.cheap([call[1]])) \
+                or (k == "is_valid" and not ideal.cheap([("not", call[1])])):
             continue
         ideal.step(call)
         h.append(call)
@@ -450,6 +563,8 @@ def random_history(rnd, cls):
                 call = ("pop", 1)
                 ideal.step(call)
                 h.append(call)
+        if (not ideal.sat_mode or (cls in ("fragment", "valuefree") and ideal.pending is not None)) and not ideal.cheap():
+            return h
         if not ideal.sat_mode or (cls in ("fragment", "valuefree") and ideal.pending is not None):
             call = ("solve",)
             ideal.step(call)
@@ -460,6 +575,8 @@ def random_history(rnd, cls):
                 if live:
                     x = rnd.choice(live)
                     call = ("get_value", ("var", x) if rnd.random() < 0.6 else gen_term(rnd, SYM_SORT[x], [x], 1))
+                    if wide and rnd.random() < 0.5:
+                        call = ("get_value", gen_wide(rnd, rnd.sample(live, min(len(live), pick_size(rnd)))))
                     if ideal.legal(call) and ideal.queryable(call[1]):
                         ideal.step(call)
                         h.append(call)
@@ -473,7 +590,139 @@ def random_history(rnd, cls):
     return h
 
 
-ENUM_ALPHABET = [("add", ("var", "b0")), ("add", ("or", ("var", "b1"), ("not", ("var", "b0")))), ("push", 1), ("push", 2),
+def poplevels_history(rnd):
+    """Multi-level pops: symbols declared at DIFFERENT levels (lowest / middle / highest popped
+    one), one pop(n) with n in 2..4, then each of those symbols is used again in small and in
+    large formulas, with and without a small formula mentioning it first, optionally after a
+    push or a reset_assertions."""
+    ideal = Ideal()
+    h = []
+    used = []
+
+    def do(call):
+        ideal.step(call)
+        h.append(call)
+
+    def fresh(k):
+        cand = [n for n in WIDE_POOL if n not in used]
+        rnd.shuffle(cand)
+        used.extend(cand[:k])
+        return cand[:k]
+
+    def big(must):
+        return gen_wide(rnd, wide_names(rnd, pick_size(rnd), must=must, prefer=used if rnd.random() < 0.5 else ()))
+
+    if rnd.random() < 0.5:
+        do(("add", gen_wide(rnd, fresh(rnd.choice([1, 2, 3, 9])))))
+    if rnd.random() < 0.25:
+        do(("push", 1))
+        if rnd.random() < 0.5:
+            do(("add", gen_wide(rnd, fresh(rnd.choice([1, 2])))))
+    rounds = 2 if rnd.random() < 0.25 else 1
+    for _ in range(rounds):
+        L = rnd.choice([2, 2, 3, 3, 4])
+        how = rnd.choice(["separate", "separate", "separate", "bulk", "mixed"])
+        level_syms = []
+        if how == "bulk":
+            do(("push", L))
+            level_syms = [[] for _ in range(L - 1)] + [fresh(rnd.choice([1, 2, 3]))]
+            do(("add", gen_wide(rnd, level_syms[-1]) if rnd.random() < 0.7 else big(level_syms[-1])))
+        else:
+            j = 0
+            while j < L:
+                step = 1 if how == "separate" else rnd.choice([1, 2])
+                step = min(step, L - j)
+                do(("push", step))
+                level_syms += [[] for _ in range(step - 1)]
+                ss = fresh(rnd.choice([0, 1, 1, 2, 3]) if j + step < L or any(level_syms) else rnd.choice([1, 2]))
+                level_syms.append(ss)
+                if ss:
+                    do(("add", gen_wide(rnd, ss) if rnd.random() < 0.7 else big(ss)))
+                j += step
+        n = rnd.randint(2, L)
+        if rnd.random() < 0.15:                 # control: the same levels popped one call at a time
+            for _ in range(n):
+                do(("pop", 1))
+        else:
+            do(("pop", n))
+        popped = [ss for ss in level_syms[L - n:] if ss]
+        after = rnd.choice([None, None, None, "push", "push2", "reset", "solve"])
+        if after == "push":
+            do(("push", 1))
+        elif after == "push2":
+            do(("push", 2))
+        elif after == "reset":
+            do(("reset",))
+        elif after == "solve" and ideal.cheap():
+            do(("solve",))
+        targets = [rnd.choice(ss) for ss in popped]
+        rnd.shuffle(targets)
+        for y in targets:
+            if rnd.random() < 0.35:             # "healing": a small formula mentions y first
+                do(("add", gen_wide(rnd, [y] + rnd.sample(used, min(len(used), rnd.choice([0, 1]))))))
+            if rnd.random() < 0.7:
+                others = [t for t in targets if t != y and rnd.random() < 0.4]
+                do(("add", big([y] + others)))
+            else:
+                do(("add", gen_wide(rnd, list(dict.fromkeys([y] + rnd.sample(used, min(len(used), rnd.choice([0, 1, 2]))))))))
+        if rnd.random() < 0.3 and ideal.depth() > 0:
+            do(("pop", rnd.randint(1, ideal.depth())))
+            if targets:
+                do(("add", big([rnd.choice(targets)])))
+    if ideal.cheap() and rnd.random() < 0.6:
+        do(("solve",))
+        if ideal.sat_mode:
+            if rnd.random() < 0.5 and ideal.live_syms():
+                do(("get_value", ("var", rnd.choice(sorted(ideal.live_syms())))))
+            do(("get_model",))
+    return h
+
+
+def widemodel_history(rnd):
+    """Many symbols declared at ONE level (15..33), then value queries: get_model, get_value of one
+    symbol and of a term with many symbols; optionally a second level."""
+    ideal = Ideal()
+    h = []
+
+    def do(call):
+        ideal.step(call)
+        h.append(call)
+    if rnd.random() < 0.3:
+        do(("push", rnd.choice([1, 2])))
+    size = rnd.choice([15, 16, 17, 31, 32, 33]) if rnd.random() < 0.8 else rnd.randint(9, 20)
+    names = wide_names(rnd, size)
+    if rnd.random() < 0.5:
+        do(("add", gen_wide(rnd, names)))
+    else:                                       # the same symbols through several assertions
+        cut = rnd.randint(1, size - 1)
+        do(("add", gen_wide(rnd, names[:cut])))
+        do(("add", gen_wide(rnd, names[cut:] + rnd.sample(names[:cut], 1))))
+    if rnd.random() < 0.4:
+        do(("push", 1))
+        do(("add", gen_wide(rnd, wide_names(rnd, pick_size(rnd), prefer=names if rnd.random() < 0.5 else ()))))
+    kind = rnd.choice(["solve", "solve", "is_sat"])
+    if kind == "solve":
+        do(("solve",))
+    else:
+        do(("is_sat", gen_wide(rnd, wide_names(rnd, rnd.choice([1, 2, 9, 16, 17]), prefer=names))))
+    if ideal.sat_mode:
+        live = sorted(ideal.live_syms())
+        for _ in range(rnd.choice([0, 1, 2])):
+            if rnd.random() < 0.5:
+                do(("get_value", ("var", rnd.choice(live))))
+            else:
+                do(("get_value", gen_wide(rnd, rnd.sample(live, min(len(live), pick_size(rnd))))))
+        do(("get_model",))
+        if rnd.random() < 0.3 and ideal.depth() > 0:
+            do(("pop", ideal.depth()))
+            do(("solve",))
+            if ideal.sat_mode:
+                do(("get_model",))
+    return h
+
+
+W9 = _tree("or", [("not", ("var", "p0"))] + [("var", n) for n in ["b1"] + ["p%d" % k for k in range(1, 8)]])
+ENUM_ALPHABET = [("add", W9), ("add", ("var", "b0")), ("add", ("or", ("var", "b1"), ("not", ("var", "b0")))), ("push", 1), ("push", 2),
                  ("pop", 1), ("pop", 2), ("solve",), ("get_value", ("var", "b0")), ("get_value", ("var", "b2")), ("get_model",), ("reset",),
                  ("is_sat", ("var", "b1")), ("is_valid", ("var", "b0"))]
 
@@ -703,6 +952,16 @@ def _worker(job):
         os.remove(logpath)
     except OSError:
         pass
+    # the property-level oracle runs here too (in parallel); it does not touch the solver
+    try:
+        if mode == "shortcut":
+            obs["fails"], obs["key"] = shortcut_oracle(h, obs), None
+        else:
+            obs["fails"] = oracle(h, obs)
+            obs["key"] = diagnose(h, obs, obs["fails"])
+    except Exception as ex:     # an observation the oracle cannot even interpret
+        obs["fails"] = [{"kind": "uninterpretable-observation", "what": "%s: %s" % (type(ex).__name__, ex)}]
+        obs["key"] = None
     return idx, obs
 
 
@@ -858,7 +1117,15 @@ def assertion_differs(cmd_text, want):
         if unknown:
             msg = "unknown symbols %s in the asserted text" % unknown
         else:
-            for env in assignments(names):
+            if search_space(names) <= 4096:
+                envs = assignments(names)
+            else:
+                import zlib
+                r = random.Random(zlib.crc32(cmd_text.encode()))
+                srt = sorted(names)
+                envs = [{n: first_value(SYM_SORT[n]) for n in srt}] + \
+                       [{n: r.choice(domain(SYM_SORT[n])) for n in srt} for _ in range(200)]
+            for env in envs:
                 a = smtref.eval_term(term, dict(env))
                 b = ev(want, env)
                 if bool(a) != bool(b):
@@ -1084,14 +1351,7 @@ def shrink(h, pred, budget=40):
         changed = False
         for i in range(len(cur)):
             cand = cur[:i] + cur[i + 1:]
-            ideal = Ideal()
-            ok = True
-            for c in cand:
-                if not ideal.legal(c):
-                    ok = False
-                    break
-                ideal.step(c)
-            if not ok or not cand:
+            if not cand or not admissible(cand):
                 continue
             budget -= 1
             if budget <= 0:
@@ -1131,17 +1391,37 @@ def run(tier):
     for h in enum:
         jobs.append((h, "incremental"))
         tags.append("enum")
-    nrand = {"fragment": 400, "values": 120, "modeldepth": 100, "multi": 160, "reset": 100, "mixed": 100, "valuefree": 40} if tier == "quick" else \
-            {"fragment": 6000, "values": 1500, "modeldepth": 800, "multi": 2500, "reset": 1200, "mixed": 2000, "valuefree": 300}
+    nrand = {"fragment": 300, "values": 110, "modeldepth": 90, "multi": 160, "reset": 90, "mixed": 100, "valuefree": 40} if tier == "quick" else \
+            {"fragment": 4000, "values": 1500, "modeldepth": 800, "multi": 2000, "reset": 1200, "mixed": 1500, "valuefree": 300}
     for cls, n in nrand.items():
         for _ in range(n):
-            jobs.append((random_history(rnd, "fragment" if cls == "modeldepth" and False else cls), "incremental"))
-            tags.append("random:" + cls)
-    nshort = 60 if tier == "quick" else 600
-    for _ in range(nshort):
+            # every family sometimes draws from the large pool (formulas with 7..33 free symbols)
+            wide = cls != "valuefree" and rnd.random() < 0.25
+            jobs.append((random_history(rnd, cls, wide=wide), "incremental"))
+            tags.append("random:" + cls + ("-wide" if wide else ""))
+    for fam, gen, n in (("poplevels", poplevels_history, 260 if tier == "quick" else 4000),
+                        ("widemodel", widemodel_history, 70 if tier == "quick" else 800)):
+        for _ in range(n):
+            jobs.append((gen(rnd), "incremental"))
+            tags.append(fam)
+    nshort = 70 if tier == "quick" else 700
+    for k in range(nshort):
+        if k % 7 == 0:      # one-shot shortcuts on formulas with many symbols
+            jobs.append(([(rnd.choice(["is_sat", "get_model", "get_model"]), gen_wide(rnd, wide_names(rnd, pick_size(rnd))))], "shortcut"))
+            tags.append("shortcut")
+            continue
         pool = rnd.choice([["b0", "b1"], ["b0", "v0"], ["b0", "i0"], ["v0", "v1"], ["i0", "i1"]])
         jobs.append(([(rnd.choice(["is_sat", "is_valid", "is_unsat", "get_model"]), gen_formula(rnd, pool))], "shortcut"))
         tags.append("shortcut")
+    sizes = {}
+    for (h, _m) in jobs:
+        for c in h:
+            if c[0] in ("add", "is_sat", "is_valid", "is_unsat", "get_value", "get_model") and len(c) > 1:
+                k = len(syms(c[1]))
+                b = "1-6" if k < 7 else ("%d" % k if k in WIDE_SIZES else ("10-14" if k < 15 else ("18-30" if k < 31 else ">33")))
+                sizes[b] = sizes.get(b, 0) + 1
+    chk.cov["formula_sizes_in_free_symbols"] = sizes
+    chk.cov["family_sizes"] = {t: tags.count(t) for t in sorted(set(tags)) if not t.startswith("witness")}
     chk.note("running %d histories on the implementation (enumerated %d)" % (len(jobs), len(enum)))
     res, aborted = run_all(jobs, logdir)
     chk.note("implementation runs done (%d results%s)" % (len(res), "; stopped early after repeated watchdog timeouts" if aborted else ""))
@@ -1158,16 +1438,7 @@ def run(tier):
             continue
         obs = res[i]
         chk.count((mode, repr(h)), nontrivial=len(h) > 0)
-        try:
-            if mode == "shortcut":
-                fails = shortcut_oracle(h, obs)
-                key = None
-            else:
-                fails = oracle(h, obs)
-                key = diagnose(h, obs, fails)
-        except Exception as ex:     # an observation the oracle cannot even interpret
-            fails = [{"kind": "uninterpretable-observation", "what": "%s: %s" % (type(ex).__name__, ex)}]
-            key = None
+        fails, key = obs["fails"], obs["key"]
         cls = tags[i].split(":")[0] + (":" + tags[i].split(":")[1] if tags[i].startswith("random") else "")
         st = stats.setdefault(cls, {"run": 0, "clean": 0, "known": {}, "unknown": 0})
         st["run"] += 1
@@ -1181,6 +1452,7 @@ def run(tier):
         if fails:
             pending_reports.append((i, fails, key))
     chk.cov["history_classes"] = stats
+    chk.note("oracle done (%d histories with failures)" % len(pending_reports))
     for i in (0, 5, len(WITNESSES) + 7, len(jobs) - nshort - 3):
         if 0 <= i < len(jobs) and i in res:
             chk.sample({"history": show_history(jobs[i][0]), "class": tags[i], "commands": [e["cmd"] for e in res[i]["log"]][:14],
@@ -1204,13 +1476,13 @@ def run(tier):
             continue
         cases.append((i, "(%s, %s, %s)" % (coq_history(h, obs["fvs"]), cl, lib.coq_bool(obs["exc"] is not None))))
     files, meta = [], {}
-    for k in range(0, len(cases), 400):
-        body = HDR + "Definition cases : list (list api_call * list command * bool) := [\n %s ].\n" % ";\n ".join(c for _, c in cases[k:k + 400])
+    for k in range(0, len(cases), 120):
+        body = HDR + "Definition cases : list (list api_call * list command * bool) := [\n %s ].\n" % ";\n ".join(c for _, c in cases[k:k + 120])
         body += "Eval vm_compute in mismatches case_ok cases.\n"
-        p = os.path.join(chk.dir, "cases_%d.v" % (k // 400))
+        p = os.path.join(chk.dir, "cases_%d.v" % (k // 120))
         open(p, "w").write(body)
         files.append(p)
-        meta[p] = [i for i, _ in cases[k:k + 400]]
+        meta[p] = [i for i, _ in cases[k:k + 120]]
     corr_bad = []
     corr_bad_idx = set()
     if os.path.exists(os.path.join(lib.COQ, "models", "SmtLibSolver.vo")):
